@@ -47,6 +47,7 @@ type Instance struct {
 	started  atomic.Bool
 	stopping atomic.Bool
 	stopped  atomic.Bool
+	stopCalls atomic.Int32
 
 	smu         sync.Mutex
 	opmu        sync.Mutex
